@@ -527,16 +527,22 @@ theorem PSim.graphTriples {B₁ B₂ s₁ s₂} (exc : PyErr) (ts : List (List T
 
 theorem Stream.graph_eq (exc : PyErr) (s : Stream) (g : Term) (ts : List (List Term)) :
     s.graph exc g ts =
-      match s.enc.te.startRow.graph g with
+      match s.enc.te.beginRow with
+      | .error e => (s, [], some e)
+      | .ok te0 =>
+      match te0.graph g with
       | (te', .error e) => ({ s with enc := { s.enc with te := te' } }, [], some e)
       | (te', .ok (rows, w)) =>
         let x := Stream.graphTriples exc
-          (({ s with enc := { s.enc with te := te' } } : Stream).pushRows (rows ++ [Row.graphStart (some w)])) ts []
+          (({ s with enc := { s.enc with te := te'.endRow } } : Stream).pushRows (rows ++ [Row.graphStart (some w)])) ts []
         match x.2.2 with
         | some e => (x.1, x.2.1, some e)
         | none => ((x.1.emit [Row.graphEnd]).1, x.2.1 ++ (x.1.emit [Row.graphEnd]).2.toList, none) := by
   unfold Stream.graph
-  rcases s.enc.te.startRow.graph g with ⟨te', e | ⟨rows, w⟩⟩
+  rcases s.enc.te.beginRow with e0 | te0
+  · rfl
+  dsimp only
+  rcases te0.graph g with ⟨te', e | ⟨rows, w⟩⟩
   · rfl
   · dsimp only
     generalize Stream.graphTriples exc _ ts [] = x
@@ -545,13 +551,16 @@ theorem Stream.graph_eq (exc : PyErr) (s : Stream) (g : Term) (ts : List (List T
 theorem Stream.graph_keeps (exc : PyErr) (s : Stream) (g : Term) (ts : List (List Term)) :
     s.Keeps (s.graph exc g ts).1 := by
   rw [Stream.graph_eq]
-  rcases s.enc.te.startRow.graph g with ⟨te', e | ⟨rows, w⟩⟩
+  rcases s.enc.te.beginRow with e0 | te0
+  · exact .refl s
+  dsimp only
+  rcases te0.graph g with ⟨te', e | ⟨rows, w⟩⟩
   · exact s.withEnc_keeps _
   · dsimp only
     have hk := Stream.graphTriples_keeps exc
-      (({ s with enc := { s.enc with te := te' } } : Stream).pushRows (rows ++ [Row.graphStart (some w)])) ts []
+      (({ s with enc := { s.enc with te := te'.endRow } } : Stream).pushRows (rows ++ [Row.graphStart (some w)])) ts []
     generalize Stream.graphTriples exc _ ts [] = x at hk ⊢
-    have h0 : s.Keeps (({ s with enc := { s.enc with te := te' } } : Stream).pushRows
+    have h0 : s.Keeps (({ s with enc := { s.enc with te := te'.endRow } } : Stream).pushRows
         (rows ++ [Row.graphStart (some w)])) := (s.withEnc_keeps _).trans (Stream.pushRows_keeps _ _)
     rcases x with ⟨s2, frs, _ | e⟩
     · exact (h0.trans hk).trans (Stream.emit_keeps _ _)
@@ -560,11 +569,14 @@ theorem Stream.graph_keeps (exc : PyErr) (s : Stream) (g : Term) (ts : List (Lis
 theorem Stream.graph_ne_nil (exc : PyErr) (s : Stream) (g : Term) (ts : List (List Term)) :
     ∀ f ∈ (s.graph exc g ts).2.1, f.rows ≠ [] := by
   rw [Stream.graph_eq]
-  rcases s.enc.te.startRow.graph g with ⟨te', e | ⟨rows, w⟩⟩
+  rcases s.enc.te.beginRow with e0 | te0
+  · simp
+  dsimp only
+  rcases te0.graph g with ⟨te', e | ⟨rows, w⟩⟩
   · simp
   · dsimp only
     have hk := Stream.graphTriples_ne_nil exc
-      (({ s with enc := { s.enc with te := te' } } : Stream).pushRows (rows ++ [Row.graphStart (some w)])) ts []
+      (({ s with enc := { s.enc with te := te'.endRow } } : Stream).pushRows (rows ++ [Row.graphStart (some w)])) ts []
       (by simp)
     generalize Stream.graphTriples exc _ ts [] = x at hk ⊢
     rcases x with ⟨s2, frs, _ | e⟩
@@ -579,15 +591,18 @@ theorem PSim.graph {A₁ A₂ s₁ s₂} (h : PSim A₁ s₁ A₂ s₂) (exc : P
          (A₂ ++ (s₂.graph exc g ts).2.1.flatMap (·.rows)) (s₂.graph exc g ts).1 ∧
     (s₁.graph exc g ts).2.2 = (s₂.graph exc g ts).2.2 := by
   rw [Stream.graph_eq, Stream.graph_eq, h.sim.2.2.1]
-  rcases s₂.enc.te.startRow.graph g with ⟨te', e | ⟨rows, w⟩⟩
+  rcases s₂.enc.te.beginRow with e0 | te0
+  · simpa using h
+  dsimp only
+  rcases te0.graph g with ⟨te', e | ⟨rows, w⟩⟩
   · simpa using h.withEnc _
   · dsimp only
     have hk := PSim.graphTriples (B₁ := A₁) (B₂ := A₂) (acc₁ := []) (acc₂ := []) exc ts
-      (by simpa using (h.withEnc { s₂.enc with te := te' }).pushRows (rows ++ [Row.graphStart (some w)]))
+      (by simpa using (h.withEnc { s₂.enc with te := te'.endRow }).pushRows (rows ++ [Row.graphStart (some w)]))
     generalize Stream.graphTriples exc
-      (({ s₁ with enc := { s₂.enc with te := te' } } : Stream).pushRows _) ts [] = x₁ at hk ⊢
+      (({ s₁ with enc := { s₂.enc with te := te'.endRow } } : Stream).pushRows _) ts [] = x₁ at hk ⊢
     generalize Stream.graphTriples exc
-      (({ s₂ with enc := { s₂.enc with te := te' } } : Stream).pushRows _) ts [] = x₂ at hk ⊢
+      (({ s₂ with enc := { s₂.enc with te := te'.endRow } } : Stream).pushRows _) ts [] = x₂ at hk ⊢
     rcases x₁ with ⟨s₁', frs₁, _ | e₁⟩ <;> rcases x₂ with ⟨s₂', frs₂, _ | e₂⟩ <;>
       simp only [reduceCtorEq, and_false] at hk
     · refine ⟨?_, rfl⟩
